@@ -28,7 +28,9 @@ pub enum Op {
     OpenSubpath { path: Vec<u8>, flags: i32 },
     Readlink { path: Vec<u8> },
     Mkdir { path: Vec<u8>, mode: u32 },
-    Mknod { path: Vec<u8>, mode: u32, dev: u64 },
+    /// `ptype`: file-type bits left in the `Permissions` value handed to the library (as `Metadata::permissions()` of
+    /// another node carries them); the library must ignore them
+    Mknod { path: Vec<u8>, mode: u32, dev: u64, ptype: u32 },
     Symlink { path: Vec<u8>, target: Vec<u8> },
     Hardlink { path: Vec<u8>, target: Vec<u8> },
     CreateFile { path: Vec<u8>, flags: i32, mode: u32 },
@@ -47,7 +49,13 @@ impl Op {
             Op::OpenSubpath { path, flags } => format!("op open_subpath {} {}", flags, hex(path)),
             Op::Readlink { path } => format!("op readlink {}", hex(path)),
             Op::Mkdir { path, mode } => format!("op mkdir {} {}", mode, hex(path)),
-            Op::Mknod { path, mode, dev } => format!("op mknod {} {} {}", mode, dev, hex(path)),
+            Op::Mknod { path, mode, dev, ptype } => {
+                if *ptype == 0 {
+                    format!("op mknod {} {} {}", mode, dev, hex(path))
+                } else {
+                    format!("op mknod {} {} {} {}", mode, dev, hex(path), ptype)
+                }
+            }
             Op::Symlink { path, target } => format!("op symlink {} {}", hex(path), hex(target)),
             Op::Hardlink { path, target } => format!("op hardlink {} {}", hex(path), hex(target)),
             Op::CreateFile { path, flags, mode } => {
@@ -176,9 +184,9 @@ pub fn exec(root: &Root, op: &Op) -> Outcome {
             root.create(p(path), &InodeType::Directory(perm(*mode))),
             |_| Outcome::Unit,
         ),
-        Op::Mknod { path, mode, dev } => {
+        Op::Mknod { path, mode, dev, ptype } => {
             let fmt = mode & libc::S_IFMT;
-            let pm = perm(mode & !libc::S_IFMT);
+            let pm = perm((mode & !libc::S_IFMT) | ptype);
             let ty = match fmt {
                 libc::S_IFREG => InodeType::File(pm),
                 libc::S_IFIFO => InodeType::Fifo(pm),
